@@ -38,36 +38,63 @@ func main() {
 	budget := flag.Duration("budget", 15*time.Second, "wall clock budget; iterations stop when it is used up")
 	flag.Parse()
 	start := time.Now()
-	runs := 0
-	capped := false
+	var gmp []int
 	for _, ps := range strings.Split(*procs, ",") {
 		n, err := strconv.Atoi(ps)
 		if err != nil || n < 1 {
 			fmt.Fprintln(os.Stderr, "bad -procs")
 			os.Exit(2)
 		}
-		runtime.GOMAXPROCS(n)
-		for _, sc := range scen.All() {
-			if *only != "" && sc.Name != *only {
-				continue
-			}
-			b := scen.Prepare(sc, *thorough)
-			distinct := map[string]int{}
-			done := 0
-			for i := 0; i < *iters; i++ {
-				if time.Since(start) > *budget {
-					capped = true
-					break
+		gmp = append(gmp, n)
+	}
+	type cell struct {
+		b        *scen.Built
+		distinct map[string]int
+		done     int
+	}
+	var scs []scen.Scenario
+	for _, sc := range scen.All() {
+		if *only == "" || sc.Name == *only {
+			scs = append(scs, sc)
+		}
+	}
+	cells := map[[2]int]*cell{}
+	for gi := range gmp {
+		for si, sc := range scs {
+			cells[[2]int{gi, si}] = &cell{b: scen.Prepare(sc, *thorough), distinct: map[string]int{}}
+		}
+	}
+	// round robin in batches, so that a used-up budget thins every (GOMAXPROCS, scenario) cell
+	// equally instead of dropping the last ones
+	const batch = 10
+	runs := 0
+	capped := false
+rounds:
+	for r := 0; r*batch < *iters; r++ {
+		for gi, n := range gmp {
+			runtime.GOMAXPROCS(n)
+			for si, sc := range scs {
+				c := cells[[2]int{gi, si}]
+				for i := 0; i < batch && c.done < *iters; i++ {
+					if time.Since(start) > *budget {
+						capped = true
+						break rounds
+					}
+					obs := strings.Join(c.b.Run(spawn), "\n")
+					if *dump && c.done == 0 && gi == 0 {
+						fmt.Printf("--- %s\n%s\n", sc.Name, obs)
+					}
+					c.distinct[obs]++
+					c.done++
+					runs++
 				}
-				obs := strings.Join(b.Run(spawn), "\n")
-				if *dump && i == 0 && n == 1 {
-					fmt.Printf("--- %s\n%s\n", sc.Name, obs)
-				}
-				distinct[obs]++
-				runs++
-				done++
 			}
-			fmt.Printf("FREE gomaxprocs=%d scenario=%s runs=%d distinct_observations=%d\n", n, sc.Name, done, len(distinct))
+		}
+	}
+	for gi, n := range gmp {
+		for si, sc := range scs {
+			c := cells[[2]int{gi, si}]
+			fmt.Printf("FREE gomaxprocs=%d scenario=%s runs=%d distinct_observations=%d\n", n, sc.Name, c.done, len(c.distinct))
 		}
 	}
 	fmt.Printf("FREE-TOTAL runs=%d capped=%v goroutines_at_exit=%d wall=%.1fs\n", runs, capped, runtime.NumGoroutine(), time.Since(start).Seconds())
